@@ -79,6 +79,13 @@ impl AgeStreamReader {
     #[verifier::external_body]
     pub fn read_to_end(&mut self, buf: &mut Vec<u8>) -> (r: Result<usize, IoError>)
         ensures final(buf)@.len() >= old(buf)@.len(), r is Ok ==> final(buf)@ == old(buf)@ + old(self).r@, r is Ok { unimplemented!() }
+    // std::io::Read::read: fills a PREFIX of the buffer with the next bytes of the stream — as many as the reader chooses to hand out
+    // in one call (possibly fewer than are left), and says how many
+    #[verifier::external_body]
+    pub fn read(&mut self, buf: &mut Vec<u8>) -> (r: Result<usize, IoError>)
+        ensures final(buf)@.len() == old(buf)@.len(),
+            r matches Ok(n) ==> n <= old(buf)@.len() && n <= old(self).r@.len() && final(buf)@.take(n as int) == old(self).r@.take(n as int) && final(self).r@ == old(self).r@.skip(n as int)
+    { unimplemented!() }
 }
 // L17: `Cursor::new(len_bytes).read_u32::<BigEndian>()`
 #[verifier::external_body]
